@@ -6,7 +6,7 @@
    Not yet proved (see DESIGN.md, C13): soundness/completeness of the generated parser (C13_sound,
    C13_complete, C13_unambiguous); these are decided on explored grammars by the derivation oracle. *)
 From Coq Require Import Sorting.Sorted.
-From Theo Require Import Base Grammar LR SpecMacro LRStatements Proofs_First.
+From Theo Require Import Base Grammar LR SpecMacro LRStatements Proofs_First LRCompleteStatements Proofs_LRComplete.
 Local Open Scope N_scope.
 
 (* every member of a computed FIRST set is justified by a derivation of a sentential form *)
@@ -110,3 +110,33 @@ Print Assumptions C13_generate_total.
 Theorem C13_sound_without_side_conditions_refuted : ~ C13_sound_stmt.
 Proof. exact C13_sound_stmt_false. Qed.
 Print Assumptions C13_sound_without_side_conditions_refuted.
+
+Theorem C13_complete_full :
+  forall (T V : Type) (translator : T -> N) (creator : T -> V) (semantic : sym -> N -> list V -> V)
+         max_states g S eof g' tab states (tr : tree) tok rest,
+    wf_grammar g -> start_ok g S eof -> rhs_closed g -> eof_fresh g eof ->
+    generate_tables max_states g false S eof = Ok (g', tab, [], states) ->
+    valid translator g tr -> root translator tr = S -> Tm (translator tok) = eof ->
+    exists fuel, parse translator creator semantic tab fuel (yield tr ++ tok :: rest) = Ok (Some (value creator semantic tr)).
+Proof. exact C13_complete_full_proof. Qed.
+Print Assumptions C13_complete_full.
+
+Theorem C13_complete_prefix :
+  forall (T V : Type) (translator : T -> N) (creator : T -> V) (semantic : sym -> N -> list V -> V)
+         max_states g S eof g' tab states (tr : tree) tok rest,
+    wf_grammar g -> start_ok g S eof -> rhs_closed g -> eof_fresh g eof ->
+    generate_tables max_states g true S eof = Ok (g', tab, [], states) ->
+    valid translator g tr -> root translator tr = S -> translator tok <= max_term g' ->
+    exists fuel v, parse translator creator semantic tab fuel (yield tr ++ tok :: rest) = Ok (Some v).
+Proof. exact C13_complete_prefix_proof. Qed.
+Print Assumptions C13_complete_prefix.
+
+Theorem C13_unambiguous :
+  forall max_states g S eof g' tab states (tr1 tr2 : @tree N),
+    wf_grammar g -> start_ok g S eof -> rhs_closed g -> eof_fresh g eof ->
+    generate_tables max_states g false S eof = Ok (g', tab, [], states) ->
+    valid (fun t => t) g tr1 -> valid (fun t => t) g tr2 ->
+    root (fun t => t) tr1 = S -> root (fun t => t) tr2 = S ->
+    yield tr1 = yield tr2 -> tr1 = tr2.
+Proof. exact C13_unambiguous_proof. Qed.
+Print Assumptions C13_unambiguous.
